@@ -20,6 +20,7 @@ type c03Mon struct {
 	perNode  [3]int
 	store    *SharedStore
 	run      int
+	run0visits int
 	script   [8]Action // actions returned in the first run, replayed in the second
 }
 
@@ -44,9 +45,12 @@ func (n *c03Probe) Exec(ctx context.Context, p any) (any, error) { return nil, n
 func (n *c03Probe) Post(ctx context.Context, s *SharedStore, p, e any) (Action, error) {
 	m := n.m
 	var a Action
-	if m.run == 0 {
+	if m.run == 0 || m.visits > m.run0visits {
 		a = vNondet[Action]("act")
-		m.script[m.visits-1] = a
+		if m.run == 0 {
+			m.script[m.visits-1] = a
+			m.run0visits = m.visits
+		}
 	} else {
 		a = m.script[m.visits-1] // same script again: the second run must take the same path
 	}
@@ -131,6 +135,20 @@ func VH_C03_table() {
 	}
 	// two consecutive runs of the same flow object
 	for run := 0; run < 2; run++ {
+		if run == 1 && vParam("between", 0) > 0 && vNondet[bool]("connectBetweenRuns") {
+			// a Connect between two runs of the same flow object (possibly from a node that had no
+			// outgoing edge during the first run) takes effect in the next run
+			i := vChoice("bi", nn)
+			j := vChoice("bj", 2)
+			t := vNondet[int]("btarget")
+			vAssume(0 <= t && t <= nn)
+			if m.ref[i][0] == -2 && m.ref[i][1] == -2 {
+				vCover("connect-from-a-former-terminal-node")
+			}
+			flow.Connect(probes[i], acts[j], asNode(vPick(t, nodes...)))
+			m.ref[i][j] = t - 1
+			vCover("connect-between-runs")
+		}
 		m.expected = start
 		m.visits = 0
 		m.run = run
